@@ -545,6 +545,19 @@ def loadDecision (commonOf : Nat → Inp) (np : Int) (dp : Nat) (spread : Bool)
     | some (l, p) => .load true l p
     | none => if adj.length < inv.length then .delay else .evict
 
+/-! ### the CPU branch of `processPending` (`len(gpus) == 1 && gpus[0].Library == "cpu"`) -/
+
+/-- "simplifying assumption of defaultParallel when in CPU mode" -/
+def cpuParallel (np : Int) (dp : Nat) : Nat := if np ≤ 0 then dp else np.toNat
+
+/-- no runner loaded ⇒ load; otherwise `maybeFindCPURunnerToUnload`: load iff the estimate's `TotalSize`
+    (options of `numParallel`, `NumCtx = origNumCtx * numParallel`) is at most the free system memory, else evict -/
+def cpuDecision (commonOf : Nat → Inp) (np : Int) (dp : Nat) (g : FGpu) (nRunners : Nat) : Decision :=
+  let p := cpuParallel np dp
+  if nRunners == 0 then .load false [g] p
+  else if (estimate { commonOf p with lib := g.lib, gpus := [g.gpu] }).total ≤ g.gpu.free then .load false [g] p
+  else .evict
+
 /-! ### `GGML.GraphSize` (fs/ggml/ggml.go): the KV-cache sizes and the two graph figures
 
 The estimator's derived inputs `kv[i]`, `graphPartial`, `graphFull` as a function of what `GraphSize`
